@@ -322,37 +322,59 @@ struct C13 : vr::Driver {
       ob.verdict = "stat: oomd.dropin.added=" + std::to_string(added) + " expected " + std::to_string(m.added);
       return ob;
     }
-    // private bookkeeping
+    // private bookkeeping (read through a `requires` guard: a refactoring of these members skips this conformance check, the
+    // behavioural comparison above does not depend on it)
     std::ostringstream ik;
-    auto& eng = *o->engine_;
-    for (size_t b = 0; b < eng.rulesets_.size(); b++) {
-      ik << "[";
-      for (auto& d : eng.rulesets_[b].dropins) ik << d.tag << ",";
-      ik << (eng.rulesets_[b].ruleset->enabled_ ? "E" : "D") << eng.rulesets_[b].ruleset->numTargeted_ << "]";
-    }
+    bool privReadable = [&](auto& oo) -> bool {
+      if constexpr (requires { oo.engine_->rulesets_[0].dropins.begin()->tag; oo.engine_->rulesets_[0].ruleset->enabled_; oo.engine_->rulesets_[0].ruleset->numTargeted_; }) {
+        auto& eng = *oo.engine_;
+        for (size_t b = 0; b < eng.rulesets_.size(); b++) {
+          ik << "[";
+          for (auto& d : eng.rulesets_[b].dropins) ik << d.tag << ",";
+          ik << (eng.rulesets_[b].ruleset->enabled_ ? "E" : "D") << eng.rulesets_[b].ruleset->numTargeted_ << "]";
+        }
+        return true;
+      } else {
+        return false;
+      }
+    }(*o);
     std::ostringstream mk;
     for (int b = 0; b < 2; b++) {
       mk << "[";
       for (auto& c : m.dropins[b]) mk << c.tag << ",";
       mk << (m.enabled(b) ? "E" : "D") << m.dropins[b].size() << "]";
     }
-    if (ik.str() != mk.str()) {
+    if (privReadable && ik.str() != mk.str()) {
       ob.verdict = "state-conformance: engine " + ik.str() + " model " + mk.str();
       return ob;
     }
-    // hook priority: behavioural probe (first hook that fires on a victim every hook matches) + full private order
+    // hook priority: behavioural probe (first hook that fires on a victim every hook matches) + full private order if readable
     std::string order;
-    for (auto it = eng.prekill_hooks_in_reverse_order_.rbegin(); it != eng.prekill_hooks_in_reverse_order_.rend(); ++it)
-      order += (it->dropin_tag ? *it->dropin_tag : std::string("")) + ";";
-    std::string morder;
-    for (auto& h : m.hooks) morder += h.first + ";";
-    if (order != morder) {
-      ob.verdict = "hook-priority: engine tag order " + order + " model " + morder;
-      return ob;
+    {
+      bool readable = [&](auto& oo) -> bool {
+        if constexpr (requires { oo.engine_->prekill_hooks_in_reverse_order_.rbegin()->dropin_tag; }) {
+          auto& hs = oo.engine_->prekill_hooks_in_reverse_order_;
+          for (auto it = hs.rbegin(); it != hs.rend(); ++it) order += (it->dropin_tag ? *it->dropin_tag : std::string("")) + ";";
+          return true;
+        } else {
+          return false;
+        }
+      }(*o);
+      std::string morder;
+      for (auto& h : m.hooks) morder += h.first + ";";
+      if (readable && order != morder) {
+        ob.verdict = "hook-priority: engine tag order " + order + " model " + morder;
+        return ob;
+      }
     }
     sim::hookEvents.clear();
-    if (auto cg = o->ctx_.addToCacheAndGet(Oomd::CgroupPath(world::cgfs(), "victim"))) {
-      auto inv = eng.firePrekillHook(cg->get(), o->ctx_);
+    Oomd::OomdContext* dctx = sim::curCtx;  // the daemon's context, as handed to the scripted plugins during the ticks above
+    if (!dctx) {
+      ob.verdict = "harness: no tick has run, the daemon's context is unknown";
+      return ob;
+    }
+    if (auto cg = dctx->addToCacheAndGet(Oomd::CgroupPath(world::cgfs(), "victim"))) {
+      auto inv = dctx->firePrekillHook(cg->get());
       std::string fired = sim::hookEvents.empty() ? "(none)" : sim::hookEvents[0].hook;
       std::string want = m.hooks.empty() ? "(none)" : m.hooks[0].second;
       if (fired != want) {
